@@ -19,9 +19,18 @@
      (19 7 ty n)             Trace / Record constants: zero, one, from_usize(n):
                              ((num der) (num der) ()|((num der)) (num hist idx) (num hist idx)
                               ()|((num hist idx)))   hist = () for "no tape"
+     (19 8 ty op (an ad) (bn bd))  Trace operators through all four owned/borrowed forms
+                             (op 0 add 1 sub 2 mul 3 div) and both negation impls (op 4, b ignored):
+                             (num der)
+     (19 9 ty op ka a kb b)  Record operators, all forms; ka kb = 0 constant, 1 variable on tape
+                             A, 2 variable on tape B (a is created first); op as above:
+                             (0 (num hist idx da db)) | (2)   hist = () | (1) ; da db = () or
+                             (the derivative of the result with respect to that variable)
+   The model evaluates every form function of Model/Numeric.v and prints their common result
+   ((99 ..) should they differ, which Proofs/C19P.v excludes).
    ty: 0 Rat, 1 Fp, 2 Wrapping<i64>. *)
 From Coq Require Import List ZArith NArith Bool.
-From EasyML Require Import Base.Sx Model.Shape Model.Tensor Model.Num Model.Numeric Model.Arith.
+From EasyML Require Import Base.Sx Model.Shape Model.Tensor Model.Num Model.Tape Model.Numeric Model.Arith.
 Import ListNotations.
 Open Scope Z_scope.
 
@@ -56,6 +65,24 @@ Definition c19_arith (w tag op a b : Z) : sx :=
       else if (w =? 0) && negb ((op =? 3) || in_range t (exact_op op a b)) then bad_case
       else soutcome SZ (arith w t op a b)
   | None => bad_case
+  end.
+
+Fixpoint sx_eqb19 (a b : sx) : bool :=
+  match a, b with
+  | SZ x, SZ y => Z.eqb x y
+  | SL l1, SL l2 =>
+      (fix go (l1 l2 : list sx) : bool :=
+         match l1, l2 with
+         | [], [] => true
+         | x :: r, y :: s => sx_eqb19 x y && go r s
+         | _, _ => false
+         end) l1 l2
+  | _, _ => false
+  end.
+Definition agree19 (rs : list sx) : sx :=
+  match rs with
+  | r :: rest => if forallb (sx_eqb19 r) rest then r else SL (SZ 99 :: rs)
+  | [] => bad_case
   end.
 
 Section User.
@@ -100,8 +127,61 @@ Definition c19_constants (n : N) : sx :=
   SL [ strace (trace_zero ops); strace (trace_one ops); sopt strace (trace_from_usize ops n);
        srecord (record_zero ops); srecord (record_one ops); sopt srecord (record_from_usize ops n) ].
 
+(* ---- Trace / Record operator forms ---- *)
+Definition dtrace (s : sx) : option (trace R) :=
+  match s with
+  | SL [n; d] => match ndec ops n, ndec ops d with
+                 | Some n, Some d => Some (mkTrace n d) | _, _ => None end
+  | _ => None
+  end.
+Definition c19_trace_op (op : Z) (a b : trace R) : sx :=
+  if op =? 4 then agree19 [strace (trace_neg_r ops a); strace (trace_neg_v ops a)]
+  else agree19 [strace (trace_rr ops op a b); strace (trace_vv ops op a b);
+                strace (trace_vr ops op a b); strace (trace_rv ops op a b)].
+
+Definition mkrec (k : Z) (t : tape R) (x : R) : record R * tape R :=
+  if k =? 0 then (record_constant x, t) else record_variable ops (Z.to_nat (k - 1)) t x.
+Definition srecord_result (ka kb : Z) (ra rb : record R) (res : outcome (record R * tape R)) : sx :=
+  soutcome (fun rt : record R * tape R =>
+    let '(r, t') := rt in
+    let d := fun (k : Z) (x : record R) =>
+      match rc_history r with
+      | Some _ => if k =? 0 then SL []
+                  else match derivatives ops t' (rc_index r) with
+                       | Ok l => sopt (nenc ops) (nth_error l (rc_index x))
+                       | _ => SL [SZ (-1)]
+                       end
+      | None => SL []
+      end in
+    SL [nenc ops (rc_number r); match rc_history r with Some _ => SL [SZ 1] | None => SL [] end;
+        snat (rc_index r); d ka ra; d kb rb]) res.
+Definition c19_record_op (op ka kb : Z) (a b : R) : sx :=
+  let '(ra, t1) := mkrec ka [] a in
+  let '(rb, t2) := if negb (ka =? 0) && negb (kb =? 0) && negb (ka =? kb)
+                   then (fst (mkrec kb [] b), t1) else mkrec kb t1 b in
+  if op =? 4 then
+    agree19 [srecord_result ka 0 ra rb (record_neg_r ops t1 ra);
+             srecord_result ka 0 ra rb (record_neg_v ops t1 ra)]
+  else
+    agree19 [srecord_result ka kb ra rb (record_rr ops op t2 ra rb);
+             srecord_result ka kb ra rb (record_vv ops op t2 ra rb);
+             srecord_result ka kb ra rb (record_vr ops op t2 ra rb);
+             srecord_result ka kb ra rb (record_rv ops op t2 ra rb)].
+
 Definition c19_user (op : Z) (args : list sx) : sx :=
   match op, args with
+  | 8, [SZ o; a; b] =>
+      match dtrace a, dtrace b with
+      | Some a, Some b => if (0 <=? o) && (o <=? 4) then c19_trace_op o a b else bad_case
+      | _, _ => bad_case
+      end
+  | 9, [SZ o; SZ ka; a; SZ kb; b] =>
+      match ndec ops a, ndec ops b with
+      | Some a, Some b =>
+          if (0 <=? o) && (o <=? 4) && (0 <=? ka) && (ka <=? 2) && (0 <=? kb) && (kb <=? 2)
+          then c19_record_op o ka kb a b else bad_case
+      | _, _ => bad_case
+      end
   | 5, [a; b; c; s] =>
       match dmat a, dmat b, dmat c, ndec ops s with
       | Some a, Some b, Some c, Some s => soutcome smat (user_matrix a b c s)
@@ -130,6 +210,6 @@ Definition run_c19 (args : list sx) : sx :=
       if wrapper_ok w then c19_arith w tag op a b else bad_case
   | [SZ 4; SZ tag; SZ op; SZ a; SZ b] => if is_float tag then SL [SZ 1] else bad_case
   | SZ op :: SZ ty :: rest =>
-      if (5 <=? op) && (op <=? 7) then with_ty3 ty (fun R ops => c19_user ops op rest) else bad_case
+      if (5 <=? op) && (op <=? 9) then with_ty3 ty (fun R ops => c19_user ops op rest) else bad_case
   | _ => bad_case
   end.
